@@ -16,7 +16,7 @@ What C07 demands : ocp.next(e) at grid point k is e at grid point k+1 (all its i
 No NLP solve: evaluated at a random decision vector through ocp.initial_value.
 """
 import sys
-sys.path.insert(0, '/tmp/nx_pydeps')   # networkx (pure python copy) for SplineMethod
+sys.path.insert(0, '/verif/pydeps')   # networkx (pure python copy) for SplineMethod
 import numpy as np
 import casadi as ca
 from rockit import Ocp, SplineMethod, MultipleShooting
